@@ -83,6 +83,8 @@ class PoolMonitor:
         for base, names in per_type.items():
             ns = {n: guard(base, n) for n in names}
             ns['_v_holder'] = None
+            # transparent to exact-type tests (`obj.__class__ in {dict, list, set}`): only type() tells the difference
+            ns['__class__'] = property(lambda self_, _b=base: _b)
             self.pooled_types[base] = type('Pooled' + base.__name__.capitalize(), (base,), ns)
         self.base_of = {v: k for k, v in self.pooled_types.items()}
         from beartype._util.cache.pool import utilcachepoolinstance as _upi
